@@ -259,7 +259,7 @@ func c01Roundtrip(seqs []gts.Sequence, what string) (ok bool, sig, detail string
 	return true, "", ""
 }
 
-var c01Alphabet = []string{"a", " ", ".", ";", ":", "\"", "\\", "\n"}
+var c01Alphabet = []string{"a", " ", ".", ";", ":", "\"", "\\", "\n", "%"}
 
 func c01Strings(maxLen int) []string {
 	out := []string{""}
@@ -828,7 +828,7 @@ func init() {
 	register(&Check{ID: "C01", Level: "model_checking", Quick: 240 * time.Second, Thor: 40 * time.Minute,
 		Run: func(r *engine.Run) bool {
 			thorough := r.Tier == "thorough"
-			r.Rule = "write->read->compare->write on the real writer/scanner for: every string of <=3 symbols over {a,space,.,;,:,\",\\,newline} in each of 22 fields (one field varied at a time, and every pair of fields at three representative values each; every subset of 12 optional blocks of a record present; writable-domain predicate per field), long wrapping values, lists of 0..3 items, 0..2 references with every sub-field subset, every calendar date of 1900-2100 (quick) / 1-9999 (thorough), every residue count 0..130, feature tables of 0..3 features over a location menu x 9 qualifier shapes, the corpus, streams of 1..3 records, every program of <=2 (quick) / <=3 (thorough) edit operations from every seed (BFS, de-duplicated on the canonical record), and every history of <=3 registry events; distinct key = canonical record dump; non-trivial = record has >=1 feature or was reached by >=1 operation"
+			r.Rule = "write->read->compare->write on the real writer/scanner for: every string of <=3 symbols over {a,space,.,;,:,\",\\,newline,%} in each of 22 fields (one field varied at a time, and every pair of fields at three representative values each; every subset of 12 optional blocks of a record present; writable-domain predicate per field), long wrapping values, lists of 0..3 items, 0..2 references with every sub-field subset, every calendar date of 1900-2100 (quick) / 1-9999 (thorough), every residue count 0..130, feature tables of 0..3 features over a location menu x 9 qualifier shapes, the corpus, streams of 1..3 records, every program of <=2 (quick) / <=3 (thorough) edit operations from every seed (BFS, de-duplicated on the canonical record), and every history of <=3 registry events; distinct key = canonical record dump; non-trivial = record has >=1 feature or was reached by >=1 operation"
 			complete := true
 			eval := func(c c01Case, size int) {
 				r.Evals.Add(1)
